@@ -629,7 +629,12 @@ func (u *URI) updateBytes(newURI, buf []byte) []byte {
 	// relative path
 	switch newURI[0] {
 	case '?':
-		// query string only update
+		// query string only update; a fragment behind it belongs to the
+		// reference, not to the query
+		if n := bytes.IndexByte(newURI, '#'); n >= 0 {
+			u.SetHashBytes(newURI[n+1:])
+			newURI = newURI[:n]
+		}
 		u.SetQueryStringBytes(newURI[1:])
 		return append(buf[:0], u.FullURI()...)
 	case '#':
